@@ -549,17 +549,22 @@ theorem foundAt_snoc_key {root : Val} {q : Pos} {name : Str} {c : Val} {r : Res}
   · cases hk; exact ⟨hpar, hni⟩
   · cases hk
 
-/-- `[new()]` below `name`: `_find` re-resolves `found`, wraps a non-list value **in place**, and
-reports NOT FOUND with the list as parent -/
+/-- `[new()]` below `name`: `_find` re-resolves `found` and reports NOT FOUND — with the list as parent,
+or (fix C04-a: the search writes nothing) for a single value as the miss of `name[new()]` below the
+parent dictionary -/
 theorem find_new_step (fuel : Nat) (root : Val) (entry rl : Bool) (q : Pos) (name : Str) (rest : List Str)
     (kcls : Cls) (nkvs : List (Str × Val)) (old : Val)
     (hp : PlainPos q) (hn : PlainKey name) (hq : getAt root q = some (.dict kcls nkvs))
     (hl : lookup name nkvs = some old) (hf : fuel ≥ 2 * (q.length + 1)) :
     ∃ fnd, findD (fuel + 1) root [] false entry (bracket sNew :: rest) (.at (q ++ [.key name])) rl
         (slash ++ renderPos (q ++ [.key name]))
-      = .ok (if isList old then root else (setAt root q (.dict kcls (kvSet name (.list .n0 [old]) nkvs))).getD root,
-          { parent := .at (q ++ [.key name]), nameIdx := Option.none, value := Val.none, found := fnd,
-            notFound := some (bracket sNew :: rest) }) := by
+      = .ok (root,
+          if isList old then
+            { parent := .at (q ++ [.key name]), nameIdx := Option.none, value := Val.none, found := fnd,
+              notFound := some (bracket sNew :: rest) }
+          else
+            { parent := .at q, nameIdx := Option.none, value := Val.none, found := fnd,
+              notFound := some ((name ++ bracket sNew) :: rest) }) := by
   have hP : getAt root (q ++ [Seg.key name]) = some old := by
     rw [getAt_snoc, hq]; simp [child, hl]
   have hpp : PlainPos (q ++ [Seg.key name]) := hp.append ⟨hn, trivial⟩
@@ -576,9 +581,24 @@ theorem find_new_step (fuel : Nat) (root : Val) (entry rl : Bool) (q : Pos) (nam
     Idx.truthy, Bool.not_true, if_true, htok, hr, hpar, hni, hq, hl]
   cases hlist : isList old with
   | true => simp [childRef, (by decide : sNew ≠ [])]
-  | false => simp [childRef, writeRef, (by decide : sNew ≠ [])]
+  | false => simp [(by decide : sNew ≠ [])]
 
 /-! ### `_add` on the element-creating steps -/
+
+/-- `name[new()]` on a name that holds a single value ("Node is EXISTED", fix C04-a): the value becomes
+the first item of a new list, followed by the placeholder -/
+theorem addStep_existing_new (root root1 : Val) (q : Pos) (c : Cls) (kvs : List (Str × Val)) (name : Str) (old : Val)
+    (hq : getAt root q = some (.dict c kvs)) (hn : PlainKey name) (hl : lookup name kvs = some old)
+    (hs : setAt root q (.dict c (kvSet name (.list .n0 [old, Val.none]) kvs)) = some root1) :
+    addStep root (.at q) Option.none (name ++ bracket sNew) = .ok (root1, .at (q ++ [.key name]), bracket sLast) := by
+  have hsplit := split_bracket name sNew (Or.inr hn) idxExpr_new
+  unfold addStep
+  simp only [pure_bind, hsplit, ok_bind, hn.noBracket, hn.noSlashC, List.contains_nil, Bool.or_self,
+    Bool.false_eq_true, if_false, List.isEmpty_nil, Bool.not_true, valOf_at, hq,
+    isEmpty_false_of_ne hn.ne, Bool.not_false, if_true, hl]
+  rw [modRef_at' root q _ (.dict c kvs) root1 hq]
+  · simp [childRef]; rfl
+  · exact hs
 
 /-- `name[new()]` / `name[0]` on a fresh name: the one-element list with a placeholder -/
 theorem addStep_elem_first (root root1 : Val) (q : Pos) (c : Cls) (kvs : List (Str × Val)) (name e : Str)
@@ -843,20 +863,24 @@ theorem setItem_new_existing (cls : Cls) (kvs : List (Str × Val)) (q : Pos) (kc
   have hfind := hwalk
   rw [List.nil_append, find_keyidx_step' (f + 1) _ e' true q _ _ name sNew tail kcls nkvs old hget hsplit hn.ne hn.notUp
     hn.keyTok.notStar hl, renderPos_snoc_key, hnew] at hfind
-  refine setItem_of_find (by simp [slash, startsWith, List.append_assoc]) (by simp [hasPathChar, slash])
-    (tokenize_elem_path q hp hn cleanIdx_new tail ht) hfind rfl (by simp) ?_
   by_cases hlist : isList old = true
   · obtain ⟨c, xs, rfl⟩ := isList_inv hlist
-    simp only [isList, if_true]
-    exact addStores_new_on_list _ _ c xs tail v t' hP ht hset
-  · simp only [hlist]
-    -- the wrap, seen as a write at `name`
-    rw [← setAt_snoc q _ (.key name) (.list .n0 [old]) _ _ hget (by simp [setChild])]
-    obtain ⟨root0, hs0⟩ := setAt_isSome (q ++ [Seg.key name]) (.dict cls kvs) _ (.list .n0 [old]) hP
-    rw [hs0]
-    simp only [Option.getD_some]
-    apply addStores_new_on_list root0 _ .n0 [old] tail v t' (getAt_setAt_same _ _ root0 _ hs0 (fun _ _ => trivial)) ht
-    rw [setAt_overwrite _ _ root0 _ _ hs0]
+    simp only [isList, if_true] at hfind
+    exact setItem_of_find (by simp [slash, startsWith, List.append_assoc]) (by simp [hasPathChar, slash])
+      (tokenize_elem_path q hp hn cleanIdx_new tail ht) hfind rfl (by simp)
+      (addStores_new_on_list _ _ c xs tail v t' hP ht hset)
+  · simp only [hlist, Bool.false_eq_true, if_false] at hfind
+    refine setItem_of_find (by simp [slash, startsWith, List.append_assoc]) (by simp [hasPathChar, slash])
+      (tokenize_elem_path q hp hn cleanIdx_new tail ht) hfind rfl (by simp) ?_
+    -- "Node is EXISTED": `_add` converts the single value and appends the placeholder in one step
+    obtain ⟨root1, hs1⟩ := setAt_isSome q (.dict cls kvs) _ (.dict kcls (kvSet name (.list .n0 [old, Val.none]) nkvs)) hget
+    refine addStores_step (addStep_existing_new _ root1 q kcls nkvs name old hget hn hl hs1) ?_
+    have hs1' : setAt (.dict cls kvs) (q ++ [Seg.key name]) (.list .n0 [old, Val.none]) = some root1 := by
+      rw [setAt_snoc q _ (.key name) _ _ (.dict kcls (kvSet name (.list .n0 [old, Val.none]) nkvs)) hget (by simp [setChild])]
+      exact hs1
+    apply cont_placeholder root1 (q ++ [Seg.key name]) .n0 [old] tail v t'
+      (getAt_setAt_same _ _ root1 _ hs1' (fun _ _ => trivial)) ht
+    rw [setAt_overwrite _ _ root1 _ _ hs1']
     rw [appendTo_nonlist (by simpa using hlist)] at hset
     exact hset
 
@@ -1495,10 +1519,13 @@ theorem find_new_existing (cls : Cls) (kvs : List (Str × Val)) (q : Pos) (kcls 
     (hp : PlainPos q) (hget : getAt (.dict cls kvs) q = some (.dict kcls nkvs)) (hn : PlainKey name)
     (hl : lookup name nkvs = some old) (hf : fuel ≥ 4 * (q.length + 1)) :
     ∃ fnd, findD fuel (.dict cls kvs) [] false true (mergedToks q ++ (name ++ bracket sNew) :: tt) (.at []) true slash
-      = .ok (if isList old then .dict cls kvs
-             else (setAt (.dict cls kvs) q (.dict kcls (kvSet name (.list .n0 [old]) nkvs))).getD (.dict cls kvs),
-          { parent := .at (q ++ [.key name]), nameIdx := Option.none, value := Val.none, found := fnd,
-            notFound := some (bracket sNew :: tt) }) := by
+      = .ok (.dict cls kvs,
+          if isList old then
+            { parent := .at (q ++ [.key name]), nameIdx := Option.none, value := Val.none, found := fnd,
+              notFound := some (bracket sNew :: tt) }
+          else
+            { parent := .at q, nameIdx := Option.none, value := Val.none, found := fnd,
+              notFound := some ((name ++ bracket sNew) :: tt) }) := by
   have hlen := mergedToks_length_le q
   have hsplit := split_bracket name sNew (Or.inr hn) idxExpr_new
   obtain ⟨f', e', h1, _, hwalk⟩ := find_walk (.dict cls kvs) true (spellsF_merged q _ _ hp hget)
@@ -1657,19 +1684,20 @@ theorem setItem_create_stepsW (cls : Cls) (kvs : List (Str × Val)) (q : Pos) (k
         cases hcreate
         rw [← hslot] at hset
         obtain ⟨fnd, hfind⟩ := find_new_existing cls kvs q kcls nkvs n old (steps.map stepTok) fuel hp hget hs hl hf
-        refine setItem_of_find hqm hpc htok hfind rfl (by simp) ?_
         by_cases hlist : isList old = true
         · obtain ⟨c, xs, rfl⟩ := isList_inv hlist
-          simp only [isList, if_true]
-          exact addStores_new_on_list' _ _ c xs steps v t' hP hsteps hg.tail hset
-        · simp only [hlist]
-          rw [← hslot]
-          obtain ⟨root0, hs0⟩ := setAt_isSome (q ++ [Seg.key n]) (.dict cls kvs) _ (.list .n0 [old]) hP
-          rw [hs0]
-          simp only [Option.getD_some]
-          apply addStores_new_on_list' root0 _ .n0 [old] steps v t'
-            (getAt_setAt_same _ _ root0 _ hs0 (fun _ _ => trivial)) hsteps hg.tail
-          rw [setAt_overwrite _ _ root0 _ _ hs0]
+          simp only [isList, if_true] at hfind
+          exact setItem_of_find hqm hpc htok hfind rfl (by simp)
+            (addStores_new_on_list' _ _ c xs steps v t' hP hsteps hg.tail hset)
+        · simp only [hlist, Bool.false_eq_true, if_false] at hfind
+          refine setItem_of_find hqm hpc htok hfind rfl (by simp) ?_
+          obtain ⟨root1, hs1⟩ := setAt_isSome q (.dict cls kvs) _ (.dict kcls (kvSet n (.list .n0 [old, Val.none]) nkvs)) hget
+          refine addStores_step (addStep_existing_new _ root1 q kcls nkvs n old hget hs hl hs1) ?_
+          have hs1' : setAt (.dict cls kvs) (q ++ [Seg.key n]) (.list .n0 [old, Val.none]) = some root1 := by
+            rw [hslot]; exact hs1
+          apply cont_steps steps root1 (q ++ [Seg.key n]) .n0 [old] v t'
+            (getAt_setAt_same _ _ root1 _ hs1' (fun _ _ => trivial)) hsteps hg.tail
+          rw [setAt_overwrite _ _ root1 _ _ hs1']
           rw [appendTo_nonlist (by simpa using hlist)] at hset
           exact hset
       · split at hcreate
